@@ -49,7 +49,7 @@ func sshMainLiterals(p *Prog) []*ssa.Function {
 				return
 			}
 			a := c.Common().Args
-			switch x := a[len(a)-1].(type) {
+			switch x := stripConv(a[len(a)-1]).(type) {
 			case *ssa.MakeClosure:
 				if f, ok := x.Fn.(*ssa.Function); ok {
 					out = append(out, f)
